@@ -913,3 +913,70 @@ def int_relation_holds(op, k, lhs, value):
     """truth of `value op k` (or `k op value` when not lhs)"""
     a, b = (value, k) if lhs else (k, value)
     return {"Eq": a == b, "Ne": a != b, "Lt": a < b, "Le": a <= b, "Gt": a > b, "Ge": a >= b}[op]
+
+
+# ------------------------------------------------------------------ variant-sensitive reachability
+def variant_reach(body, start, no_nodes=(), no_edges=(), max_states=200000):
+    """Blocks reachable from `start` when the variant of every local that is assigned *whole* ADT aggregates
+    (`x = Some(..)` / `x = None`) is tracked along the path and a later `match x` follows only the matching arm.
+    Removes the classic infeasible path `let m = if c {Some(..)} else {None}; if let Some(..) = m {..}`.
+    Sound over-approximation otherwise: unknown variant -> all arms; any other write to the local forgets it."""
+    tracked = {}
+    for bb, bl in enumerate(body.blocks):
+        for s in bl["s"]:
+            if s[0] == "A" and len(s[1]) == 1 and s[2][0] == "agg" and isinstance(s[2][1], dict) and "vidx" in s[2][1]:
+                tracked.setdefault(s[1][0], True)
+    # a local that is written in any other way (call dest, use, field write, borrowed mutably) is still tracked, but forgotten at that write
+    mut_borrowed = set()
+    for bb, bl in enumerate(body.blocks):
+        for s in bl["s"]:
+            if s[0] == "A" and s[2][0] == "ref" and s[2][1] != "shared" and s[2][2][0] in tracked:
+                mut_borrowed.add(s[2][2][0])
+    for l in mut_borrowed:
+        tracked.pop(l, None)
+    no_nodes, no_edges = set(no_nodes), set(no_edges)
+    seen_blocks = set()
+    seen = set()
+    if start in no_nodes:
+        return seen_blocks
+    stack = [(start, frozenset())]
+    while stack:
+        if len(seen) > max_states:
+            return body.reachable(start, no_nodes=no_nodes, no_edges=no_edges)
+        bb, env = stack.pop()
+        if (bb, env) in seen:
+            continue
+        seen.add((bb, env))
+        seen_blocks.add(bb)
+        e = dict(env)
+        disc = {}
+        for s in body.blocks[bb]["s"]:
+            if s[0] != "A":
+                continue
+            dst = s[1]
+            if len(dst) == 1 and dst[0] in tracked and s[2][0] == "agg" and isinstance(s[2][1], dict) and "vidx" in s[2][1]:
+                e[dst[0]] = s[2][1]["vidx"]
+            elif dst[0] in tracked:
+                e.pop(dst[0], None)
+            if s[2][0] == "disc" and len(s[2][1]) == 1 and s[2][1][0] in tracked and len(dst) == 1:
+                disc[dst[0]] = s[2][1][0]
+            # moving a tracked local out keeps the variant of the source (moved-from is not read again)
+            if len(dst) == 1 and s[2][0] == "use" and op_place(s[2][1]) is not None and len(op_place(s[2][1])) == 1 and op_place(s[2][1])[0] in e and dst[0] in tracked:
+                e[dst[0]] = e[op_place(s[2][1])[0]]
+        t = body.term(bb)
+        if t["t"] == "call" and t.get("dest") and t["dest"][0] in tracked:
+            e.pop(t["dest"][0], None)
+        succs = list(body.succ[bb])
+        if t["t"] == "sw":
+            dl = op_local(t["d"])
+            if dl in disc and disc[dl] in e and len(op_place(t["d"])) == 1:
+                v = e[disc[dl]]
+                m = {val: x for val, x in t["targets"]}
+                succs = [m.get(v, t["else"])]
+        fe = frozenset(e.items())
+        for s_ in succs:
+            if s_ in no_nodes or (bb, s_) in no_edges:
+                continue
+            if (s_, fe) not in seen:
+                stack.append((s_, fe))
+    return seen_blocks
